@@ -62,6 +62,8 @@ def rcond(c):
 
 def render_stmt(s):
     k = s[0]
+    if k == 'sameline':          # ('sameline', ('label', name), stmt): the label written in front of the statement it labels
+        return f'{s[1][1]}: ' + render_stmt(s[2]).strip()
     if k == 'label':
         return f'{s[1]}:'
     if k == 'const':
@@ -193,7 +195,9 @@ class RefAsm:
         self.dc_plan = None              # readings for conditions on undefined symbols (see eval_cond)
         self.dc_used = 0
         self.p = params
-        self.files = files
+        # a label written in front of a statement is the label followed by the statement
+        self.files = {path: [t for st in stmts for t in ((st[1], st[2]) if st[0] == 'sameline' else (st,))]
+                      for path, stmts in files.items()}
         self.main = main
         self.incdirs = tuple(incdirs)
         self.res = Result()
@@ -650,6 +654,15 @@ class RefAsm:
         for line in self.res.lines:
             if line.size:
                 blocks.append((line.addr, line.bytes, line.muted, (line.file, line.lineno)))
+        # two unmuted lines on one address: rejected whatever muted lines lie around them
+        seen = {}
+        for addr, data, muted, who in blocks:
+            if muted:
+                continue
+            for i in range(len(data)):
+                if addr + i in seen:
+                    raise Reject(f'address {addr + i} occupied twice: {seen[addr + i]} and {who}')
+                seen[addr + i] = who
         occupied = {}
         for addr, data, muted, who in blocks:
             for i, b in enumerate(data):
